@@ -124,8 +124,8 @@ Ltac simp_hyps :=
   end.
 
 Ltac norm := cbv beta iota zeta delta [set_lock set_mine set_p_has set_p_id set_p_fk set_p_cs set_p_txn set_p_pidset set_out set_next set_closed set_sess set_k_reg set_k_has set_k_id
-  set_k_intxn set_k_imm set_k_fk set_k_pending set_k_forupd set_ncall set_trace set_bad
-  lock mine p_has p_id p_fk p_cs p_txn p_pidset out next closed sess k_reg k_has k_id k_intxn k_imm k_fk k_pending k_forupd ncall trace bad
+  set_k_intxn set_k_imm set_k_fk set_k_pending set_k_forupd set_k_saved set_ncall set_trace set_bad
+  lock mine p_has p_id p_fk p_cs p_txn p_pidset out next closed sess k_reg k_has k_id k_intxn k_imm k_fk k_pending k_forupd k_saved ncall trace bad
   andb orb negb fst snd other] in *; rewrite ?Nat.eqb_refl in *.
 
 Ltac scan_tac :=
@@ -164,7 +164,7 @@ Ltac bool_crush :=
 Ltac finish := try reflexivity; try discriminate; try lia; auto; try scan_tac; try suffix_tac; try solve [bool_crush].
 
 Ltac destruct_st :=
-  intros [lock mine p_has p_id p_fk p_cs p_txn p_pidset out next closed sess k_reg k_has k_id k_intxn k_imm k_fk k_pending k_forupd ncall trace bad].
+  intros [lock mine p_has p_id p_fk p_cs p_txn p_pidset out next closed sess k_reg k_has k_id k_intxn k_imm k_fk k_pending k_forupd k_saved ncall trace bad].
 Ltac run := norm; simp_hyps; repeat (split_one; norm; simp_hyps).
 
 (* frame: what connect / set_transaction_mode / cursor+execute leave alone in the cache *)
